@@ -1095,12 +1095,10 @@ class C07(core.Check):
                   "these are now inside the model and compared exactly; OSync remains only as a stand-in for foreign code).  "
                   "render_never_raises / render_never_raises_any_history: after any such history render completes a pending "
                   "'first selectable', set_focus (also a stale one) or set_focus_valign request without raising and shows such a "
-                  "window.  mouse_press_focuses.  page_down_raises_only_for_a_candidate_above_the_page + "
-                  "page_down_handled_without_such_a_candidate: 'page down' either handles the key or raises ListBoxError, and "
-                  "raises only if a candidate widget with rows lies completely above the top of the new page; "
-                  "page_down_never_raises_refuted: that situation is reachable with ordinary widgets (heights 1,1,2, box of 2 "
-                  "rows; replayed on the implementation).  NOT proved (page_up_never_raises_full, stated): 'page up' never "
-                  "raises - correspondence and regression oracle only.  "
+                  "window.  mouse_press_focuses.  page_down_never_raises: keypress 'page down' (and _keypress_page_down) never "
+                  "raises and leaves a ViewOK state over the same widgets (before the repair 1f3edac it was refuted: a candidate "
+                  "completely above the new page; kept as a regression case).  NOT proved (page_up_never_raises_full, stated): "
+                  "'page up' never raises - correspondence and regression oracle only.  "
                   "NOT modelled: widgets with move_cursor_to_coords (real Edit histories are oracle only), widgets whose "
                   "rows()/render()/cursor disagree, wrap-around walkers, maxrow = 0; canvas-level trimming of multi-shard items "
                   "and cache invalidation by walker edits are oracle only; exceptions out of keypress / mouse_event are judged "
@@ -1135,7 +1133,7 @@ class C07(core.Check):
         "item widgets: rows() >= 0, rows() and render() agree, the cursor row reported lies inside the widget (hypotheses heights_ok / cursor_ok of view_ok)",
         "maxrow >= 1 (StateOK); positions are list indices, no wrap-around walker",
         "the item widgets of the model have no move_cursor_to_coords: change_focus ends after the offset assignment (cursor_coords only sets pref_col); histories with real Edit widgets are judged by the oracle only",
-        "an exception out of keypress/mouse_event is accepted only with a signature recorded in corpus/C07/baseline_keypress_exceptions.json (page down / ListBoxError, characterised by page_down_raises_only_for_a_candidate_above_the_page)",
+        "an exception out of keypress/mouse_event is accepted only with a signature recorded in corpus/C07/baseline_keypress_exceptions.json, which is empty: every such exception is reported",
     ]
 
 
